@@ -70,7 +70,8 @@ class _Ctx:
 def _mk_program(pd):
     from qupulse.program.loop import Loop
     from qupulse.program.waveforms import ConstantWaveform
-    wf = ConstantWaveform.from_mapping(4, {CH[c]: 0.5 for c in pd['chans']})
+    names = pd.get('_ids') or CH
+    wf = ConstantWaveform.from_mapping(4, {names[c]: 0.5 for c in pd['chans']})
     ms = [('m%d' % n, b, l) for n, b, l in pd['meas']]
     if pd.get('shape', 'leaf') == 'leaf':
         return Loop(waveform=wf, measurements=ms or None, repetition_count=pd.get('rep', 1))
@@ -153,6 +154,7 @@ def _run(case):
     from qupulse.hardware.awgs.dummy import DummyAWG
     from qupulse.hardware.dacs.dummy import DummyDAC
 
+    IDS = list(case.get('ids') or CH)      # model channel id -> Python channel id (str or int, 0 included)
     awgs = [DummyAWG(num_channels=nc, num_markers=nm) for nc, nm in case['awgs']]
     dacs = [DummyDAC() for _ in range(case['ndacs'])]
     masks = [MeasurementMask(dacs[d], 'K%d' % k) for d, k in case['masks']]
@@ -169,11 +171,114 @@ def _run(case):
     cblog = []
     upload_log = []
 
-    for i, a in enumerate(awgs):     # observe the order of the upload calls
-        def wrapped(*args, _orig=a.upload, _i=i, **kw):
-            upload_log.append(_i)
-            return _orig(*args, **kw)
-        a.upload = wrapped
+    vollog = []
+    # Second observation path: what every device was TOLD through the public AWG / DAC interface (upload / remove /
+    # clear / arm, register_measurement_windows / delete_program / clear / arm_program).  The shadow state derived from
+    # these calls must agree with the dummies' private attributes and with the public AWG.programs / DAC.armed_program.
+    sh_awg = [{'progs': {}, 'armed': None} for _ in awgs]
+    sh_dac = [{'wins': {}, 'armed': None} for _ in dacs]
+
+    def wrap_awg(i, a):
+        o_upload, o_remove, o_clear, o_arm = a.upload, a.remove, a.clear, a.arm
+        sh = sh_awg[i]
+
+        def upload(name, program, channels, markers, voltage_transformation, force=False):
+            upload_log.append(i)
+            r = o_upload(name, program, channels, markers, voltage_transformation, force)   # may raise
+            sh['progs'].pop(name, None)
+            sh['progs'][name] = (program, channels, markers, voltage_transformation)
+            return r
+
+        def remove(name):
+            r = o_remove(name)
+            sh['progs'].pop(name, None)
+            return r
+
+        def clear():
+            r = o_clear()
+            sh['progs'].clear()
+            sh['armed'] = None
+            return r
+
+        def arm(name):
+            r = o_arm(name)
+            sh['armed'] = name
+            return r
+
+        def set_volatile_parameters(program_name, parameters):
+            if not (vollog and vollog[0][3]):
+                raise RuntimeError('set_volatile_parameters outside update_parameters')
+            if program_name != vollog[0][4] or parameters is not vollog[0][5]:
+                raise RuntimeError('set_volatile_parameters got other arguments than update_parameters')
+            vollog[0][2].append(i)
+        a.upload, a.remove, a.clear, a.arm, a.set_volatile_parameters = upload, remove, clear, arm, set_volatile_parameters
+
+    def wrap_dac(i, d):
+        o_reg, o_del, o_clear, o_arm = d.register_measurement_windows, d.delete_program, d.clear, d.arm_program
+        sh = sh_dac[i]
+
+        def register_measurement_windows(program_name, windows):
+            r = o_reg(program_name, windows)
+            sh['wins'][program_name] = windows
+            return r
+
+        def delete_program(program_name):
+            r = o_del(program_name)
+            sh['wins'].pop(program_name, None)
+            if sh['armed'] == program_name:
+                sh['armed'] = None
+            return r
+
+        def clear():
+            r = o_clear()
+            sh['wins'].clear()
+            sh['armed'] = None
+            return r
+
+        def arm_program(program_name):
+            r = o_arm(program_name)
+            sh['armed'] = program_name
+            return r
+        d.register_measurement_windows, d.delete_program, d.clear, d.arm_program = \
+            register_measurement_windows, delete_program, clear, arm_program
+
+    for i, a in enumerate(awgs):
+        wrap_awg(i, a)
+    for i, d in enumerate(dacs):
+        wrap_dac(i, d)
+
+    class ObservationMismatch(Exception):
+        pass
+
+    def check_public():
+        for i, a in enumerate(awgs):
+            if set(a.programs) != set(a._programs) or set(sh_awg[i]['progs']) != set(a._programs):
+                raise ObservationMismatch('AWG %d: programs property %r, _programs %r, told %r'
+                                          % (i, sorted(a.programs), sorted(a._programs), sorted(sh_awg[i]['progs'])))
+            for n, t in a._programs.items():
+                u = sh_awg[i]['progs'][n]
+                if t[0] is not u[0] or tuple(t[1]) != tuple(u[1]) or tuple(t[2]) != tuple(u[2]) or \
+                        len(t[3]) != len(u[3]) or any(x is not y for x, y in zip(t[3], u[3])):
+                    raise ObservationMismatch('AWG %d holds %r for %s but was told %r' % (i, t, n, u))
+            if a._armed != sh_awg[i]['armed']:
+                raise ObservationMismatch('AWG %d: _armed %r, told %r' % (i, a._armed, sh_awg[i]['armed']))
+        for i, d in enumerate(dacs):
+            if d.armed_program != d._armed_program or d.armed_program != sh_dac[i]['armed']:
+                raise ObservationMismatch('DAC %d: armed_program %r, _armed_program %r, told %r'
+                                          % (i, d.armed_program, d._armed_program, sh_dac[i]['armed']))
+            if set(d._measurement_windows) != set(sh_dac[i]['wins']) or \
+                    any(d._measurement_windows[n] is not sh_dac[i]['wins'][n] for n in d._measurement_windows):
+                raise ObservationMismatch('DAC %d holds windows for %r but was told %r'
+                                          % (i, sorted(d._measurement_windows), sorted(sh_dac[i]['wins'])))
+        ka = {s.awg for chans in setup.registered_channels().values() for s in chans}
+        if set(setup.known_awgs) != ka:
+            raise ObservationMismatch('known_awgs is not the set of generators of registered_channels()')
+        kd = {m.dac for ms in setup._measurement_map.values() for m in ms}
+        if set(setup.known_dacs) != kd:
+            raise ObservationMismatch('known_dacs is not the set of devices of the measurement map')
+        if setup.registered_programs is not setup._registered_programs or \
+                setup.registered_channels() is not setup._channel_map:
+            raise ObservationMismatch('registered_programs / registered_channels() are not the private maps')
 
     def mk_cb(tag):
         def cb():
@@ -191,13 +296,19 @@ def _run(case):
             return PlaybackChannel(awgs[a], idx)
         return PlaybackChannel(awgs[a], idx, trafos[tr])
 
+    def id_index(x):
+        for i, y in enumerate(IDS):
+            if type(x) is type(y) and x == y:
+                return i
+        raise ValueError('unknown channel id %r' % (x,))
+
     def chan_id(x):
-        return None if x is None else CH.index(x)
+        return None if x is None else id_index(x)
 
     def snapshot(err):
         cm = {}
         for cid, chans in setup.registered_channels().items():
-            cm[CH.index(cid)] = sorted([awg_ix[id(s.awg)], int(s.channel_on_awg), isinstance(s, MarkerChannel),
+            cm[id_index(cid)] = sorted([awg_ix[id(s.awg)], int(s.channel_on_awg), isinstance(s, MarkerChannel),
                                         0 if isinstance(s, MarkerChannel) else trafo_ix[id(s.voltage_transformation)]]
                                        for s in chans)
         mm = {int(n[1:]): sorted(mask_ix[id(m)] for m in ms) for n, ms in setup._measurement_map.items()}
@@ -205,7 +316,7 @@ def _run(case):
         for n, r in setup.registered_programs.items():
             first = next(r.program.get_depth_first_iterator())
             regs[int(n[1:])] = {'tag': progs[id(r.program)],
-                                'chans': sorted(CH.index(c) for c in first.waveform.defined_channels),
+                                'chans': sorted(id_index(c) for c in first.waveform.defined_channels),
                                 'meas': {int(k[1:]): _wins(v) for k, v in r.measurement_windows.items()},
                                 'cb': r.run_callback.tag,
                                 'awgs': sorted(awg_ix[id(a)] for a in r.awgs_to_upload_to),
@@ -222,7 +333,9 @@ def _run(case):
             od.append({'wins': {int(n[1:]): {int(k[1:]): _wins(v) for k, v in w.items()}
                                 for n, w in d._measurement_windows.items()},
                        'armed': None if d.armed_program is None else int(d.armed_program[1:])})
-        return {'err': err, 'chmap': cm, 'mmap': mm, 'regs': regs, 'awgs': oa, 'dacs': od, 'cblog': list(reversed(cblog))}
+        check_public()
+        return {'err': err, 'chmap': cm, 'mmap': mm, 'regs': regs, 'awgs': oa, 'dacs': od, 'cblog': list(reversed(cblog)),
+                'vollog': [[e[0], e[1], sorted(e[2])] for e in vollog]}
 
     steps = []
     for op in case['ops']:
@@ -242,8 +355,8 @@ def _run(case):
                         arg = set(arg)
                 else:
                     arg = 7
-                setup.set_channel(CH[op['id']], arg, allow_multiple_registration=op['allow']) if op['allow'] else \
-                    setup.set_channel(CH[op['id']], arg)
+                setup.set_channel(IDS[op['id']], arg, allow_multiple_registration=op['allow']) if op['allow'] else \
+                    setup.set_channel(IDS[op['id']], arg)
             elif k == 'set_measurement':
                 a = op['arg']
                 if a['k'] == 'single':
@@ -255,14 +368,14 @@ def _run(case):
                 setup.set_measurement('m%d' % op['name'], arg, allow_multiple_registration=op['allow']) if op['allow'] \
                     else setup.set_measurement('m%d' % op['name'], arg)
             elif k == 'rm_channel':
-                setup.rm_channel(CH[op['id']])
+                setup.rm_channel(IDS[op['id']])
             elif k == 'register':
                 pd = op['prog']
-                program = _mk_program(pd)
+                program = _mk_program(dict(pd, _ids=IDS))
                 keep.append(program)
                 progs[id(program)] = pd['tag']
                 first = next(program.get_depth_first_iterator())
-                chan_order = [CH.index(c) for c in first.waveform.defined_channels]
+                chan_order = [id_index(c) for c in first.waveform.defined_channels]
                 kwargs = {}
                 if op.get('explicit') is not None:
                     meas = {'m%d' % n: (np.array(b, dtype=float), np.array(l, dtype=float)) for n, b, l in op['explicit']}
@@ -278,7 +391,7 @@ def _run(case):
                     kwargs['run_callback'] = 'not callable'
                 wired = []
                 for c in chan_order:
-                    for s in setup.registered_channels().get(CH[c], ()):
+                    for s in setup.registered_channels().get(IDS[c], ()):
                         ai = awg_ix.get(id(getattr(s, 'awg', None)))
                         if ai is not None and ai not in wired:
                             wired.append(ai)
@@ -300,6 +413,17 @@ def _run(case):
                 setup.arm_program('p%d' % op['name'])
             elif k == 'run':
                 setup.run_program('p%d' % op['name'])
+            elif k == 'update_params':
+                params = {'x': float(op['ptag'])}
+                entry = [op['name'], op['ptag'], [], True, 'p%d' % op['name'], params]
+                vollog.insert(0, entry)
+                try:
+                    setup.update_parameters('p%d' % op['name'], params)
+                except BaseException:
+                    vollog.pop(0)          # the model logs nothing for a call that raised
+                    raise
+                finally:
+                    entry[3] = False
             else:
                 raise RuntimeError('unknown op %r' % k)
         except (TypeError, KeyError, ValueError, IndexError) as e:
@@ -363,7 +487,8 @@ def g_obs(case, st):
     regs = g_alist(g_reg, st['regs'])
     oa = glist(lambda a: '(AS %s %s)' % (g_alist(g_entry, a['progs']), g_on(a['armed'])), st['awgs'])
     od = glist(lambda d: '(DS %s %s)' % (g_alist(lambda w: g_alist(g_wins, w), d['wins']), g_on(d['armed'])), st['dacs'])
-    return '(OB %s %s %s %s %s %s %s)' % (err, cm, mm, regs, oa, od, glist(gN, st['cblog']))
+    vl = glist(lambda e: '(%s, %s, %s)' % (gN(e[0]), gN(e[1]), glist(gN, e[2])), st.get('vollog', []))
+    return '(OB %s %s %s %s %s %s %s %s)' % (err, cm, mm, regs, oa, od, glist(gN, st['cblog']), vl)
 
 
 def g_op(case, op, st):
@@ -403,6 +528,8 @@ def g_op(case, op, st):
         return '(OArm %s)' % gN(op['name'])
     if k == 'run':
         return '(ORun %s)' % gN(op['name'])
+    if k == 'update_params':
+        return '(OUpdateParams %s %s)' % (gN(op['name']), gN(op['ptag']))
     raise ValueError(k)
 
 
@@ -622,6 +749,26 @@ class Tracker:
         self.ops.append({'op': 'clear'})
         self.regs = {}
 
+    def op_update(self):
+        rng = self.rng
+        if self.regs and rng.random() < 0.85:
+            name = rng.choice(sorted(self.regs))
+        else:
+            name = rng.randrange(5)
+        self.tag += 1
+        self.ops.append({'op': 'update_params', 'name': name, 'ptag': self.tag})
+
+
+ID_VARIANTS = [None, None, ['A', 0, 'C', 1, 'E', 2, 'G', 3], [0, 1, 2, 3, 4, 5, 6, 7], [3, 'B', 0, 'D', 'E', 'F', 'G', 'H']]
+
+
+def with_ids(rng, case):
+    """channel identifiers are str or int (ChannelID); integer 0 is falsy"""
+    ids = rng.choice(ID_VARIANTS)
+    if ids is not None:
+        case['ids'] = list(ids)
+    return case
+
 
 def rnd_history(rng, n_ops, clean, malformed_rate=0.0):
     awgs, masks = rnd_config(rng)
@@ -647,12 +794,14 @@ def rnd_history(rng, n_ops, clean, malformed_rate=0.0):
             t.op_named('remove')
         elif r < 0.74:
             t.op_clear()
-        elif r < 0.90:
+        elif r < 0.87:
             t.op_named('arm')
-        else:
+        elif r < 0.94:
             t.op_named('run')
-    return {'kind': 'hist', 'stream': 'clean' if clean else ('malformed' if malformed_rate else 'free'),
-            'awgs': awgs, 'ndacs': 2, 'masks': masks, 'ops': t.ops}
+        else:
+            t.op_update()
+    return with_ids(rng, {'kind': 'hist', 'stream': 'clean' if clean else ('malformed' if malformed_rate else 'free'),
+                          'awgs': awgs, 'ndacs': 2, 'masks': masks, 'ops': t.ops})
 
 
 def scenario_history(rng):
@@ -678,20 +827,23 @@ def scenario_history(rng):
             t.op_register()
         elif r < 0.70:
             t.op_named('arm')
-        elif r < 0.80:
+        elif r < 0.78:
             t.op_named('run')
-        elif r < 0.95:
+        elif r < 0.84:
+            t.op_update()
+        elif r < 0.96:
             t.op_named('remove')
         else:
             t.op_clear()
-    return {'kind': 'hist', 'stream': 'scenario', 'awgs': awgs, 'ndacs': 2, 'masks': masks, 'ops': t.ops}
+    return with_ids(rng, {'kind': 'hist', 'stream': 'scenario', 'awgs': awgs, 'ndacs': 2, 'masks': masks, 'ops': t.ops})
 
 
 def targeted(rng):
     """shapes of the defects read in the code: update that moves a program, re-wiring under a registered program,
     removal/clear of an armed program, overwrite failing half-way"""
     out = []
-    base = {'kind': 'hist', 'stream': 'targeted', 'awgs': [[2, 1], [2, 1]], 'ndacs': 2, 'masks': [[0, 0], [1, 1], [0, 1]]}
+    base = {'kind': 'hist', 'stream': 'targeted', 'awgs': [[2, 1], [2, 1]], 'ndacs': 2,
+            'masks': [[0, 0], [1, 1], [0, 1], [0, 0]]}
     w = [{'op': 'set_channel', 'id': 0, 'arg': {'k': 'many', 'chs': [[0, 0, False, 0]]}, 'allow': False},
          {'op': 'set_channel', 'id': 1, 'arg': {'k': 'many', 'chs': [[1, 1, False, 1], [1, 0, True, 0]]}, 'allow': False},
          {'op': 'set_measurement', 'name': 0, 'arg': {'k': 'many', 'masks': [0]}, 'allow': False},
@@ -714,11 +866,34 @@ def targeted(rng):
         [reg(0, pA), reg(0, pAB), {'op': 'remove', 'name': 0}],          # overwrite fails (possibly half-way)
         [reg(0, pB), reg(0, pAB), reg(0, pAB, True), {'op': 'run', 'name': 0}],
         [reg(0, pAB), reg(1, pA), {'op': 'arm', 'name': 1}, {'op': 'remove', 'name': 0}, {'op': 'arm', 'name': 1}],
+        # update_parameters reaches exactly the participating generators
+        [reg(0, pA), reg(1, pAB), {'op': 'update_params', 'name': 0, 'ptag': 7}, {'op': 'update_params', 'name': 1, 'ptag': 8},
+         {'op': 'update_params', 'name': 2, 'ptag': 9}, reg(1, pB, True), {'op': 'update_params', 'name': 1, 'ptag': 10}],
+        # the documented workflow: re-wire a used channel, then re-register with update=True (name is clean again)
+        [reg(0, pA), {'op': 'rm_channel', 'id': 0},
+         {'op': 'set_channel', 'id': 0, 'arg': {'k': 'many', 'chs': [[1, 0, False, 3]]}, 'allow': False},
+         reg(0, pA, True), {'op': 'arm', 'name': 0}, {'op': 'update_params', 'name': 0, 'ptag': 3}, {'op': 'remove', 'name': 0}],
+        # re-wiring, then remove: everything is gone; re-wiring, un-wiring the generator, then clear: a copy is lost
+        [reg(0, pA), {'op': 'set_channel', 'id': 0, 'arg': {'k': 'many', 'chs': [[1, 0, False, 0]]}, 'allow': False},
+         {'op': 'remove', 'name': 0}, reg(0, pA), {'op': 'arm', 'name': 0}],
+        [reg(0, pA), {'op': 'rm_channel', 'id': 0}, {'op': 'clear'},
+         {'op': 'set_channel', 'id': 0, 'arg': {'k': 'many', 'chs': [[0, 0, False, 0]]}, 'allow': False}, reg(0, pA), reg(1, pB)],
+        # a second mask object for the same (dac, mask name) is not a re-wiring; another device is
+        [reg(0, pA), {'op': 'set_measurement', 'name': 0, 'arg': {'k': 'many', 'masks': [3]}, 'allow': True},
+         {'op': 'arm', 'name': 0}, {'op': 'remove', 'name': 0}],
+        [reg(0, pA), {'op': 'set_measurement', 'name': 0, 'arg': {'k': 'many', 'masks': [2]}, 'allow': False},
+         reg(0, pA, True), {'op': 'arm', 'name': 0}],
+        # the same channel set given again (other order, set instead of list) is not a re-wiring
+        [reg(1, pB), {'op': 'set_channel', 'id': 1, 'arg': {'k': 'many', 'chs': [[1, 0, True, 0], [1, 1, False, 1]], 'as_set': True},
+                      'allow': True}, {'op': 'arm', 'name': 1}, {'op': 'clear'}],
     ]
     for h in hs:
-        c = dict(base)
-        c['ops'] = [dict(o) for o in w] + [dict(o) for o in h]
-        out.append(c)
+        for ids in (None, [0, 1, 2, 3, 4, 5, 6, 7]):
+            c = dict(base)
+            if ids is not None:
+                c['ids'] = ids
+            c['ops'] = [dict(o) for o in w] + [dict(o) for o in h]
+            out.append(c)
     return out
 
 
@@ -760,6 +935,47 @@ def exhaustive(max_len):
     return out
 
 
+SMALL_WIRING = [
+    {'op': 'set_channel', 'id': 0, 'arg': {'k': 'many', 'chs': [[0, 0, False, 0]]}, 'allow': False},
+    {'op': 'set_channel', 'id': 1, 'arg': {'k': 'many', 'chs': [[1, 0, False, 1]]}, 'allow': False},
+    {'op': 'set_measurement', 'name': 0, 'arg': {'k': 'many', 'masks': [0]}, 'allow': False},
+]
+
+
+def exhaustive_small(max_len, min_len=1):
+    """ALL histories of min_len..max_len operations over a 10-letter alphabet on 2 one-channel generators x 1 acquisition
+    device (after a fixed wiring): registration / update that moves the program / removal / clear / arm /
+    update_parameters and the three kinds of re-wiring (channel moved to the other generator, channel removed,
+    measurement moved to another mask)"""
+    pA = {'chans': [0], 'meas': [[0, 0, 1]], 'shape': 'leaf'}
+    pB = {'chans': [1], 'meas': [], 'shape': 'leaf'}
+    pAB = {'chans': [0, 1], 'meas': [[0, 1, 2]], 'shape': 'leaf'}
+    alpha = [
+        {'op': 'register', 'name': 0, 'prog': pA, 'update': False},
+        {'op': 'register', 'name': 0, 'prog': pB, 'update': True},
+        {'op': 'register', 'name': 0, 'prog': pAB, 'update': True},
+        {'op': 'remove', 'name': 0}, {'op': 'clear'}, {'op': 'arm', 'name': 0},
+        {'op': 'update_params', 'name': 0, 'ptag': 1},
+        {'op': 'set_channel', 'id': 0, 'arg': {'k': 'many', 'chs': [[1, 0, False, 0]]}, 'allow': True},
+        {'op': 'rm_channel', 'id': 0},
+        {'op': 'set_measurement', 'name': 0, 'arg': {'k': 'many', 'masks': [1]}, 'allow': False},
+    ]
+    out = []
+    for n in range(min_len, max_len + 1):
+        for combo in itertools.product(range(len(alpha)), repeat=n):
+            ops = [dict(o) for o in SMALL_WIRING]
+            for t, i in enumerate(combo):
+                o = dict(alpha[i])
+                if o['op'] == 'register':
+                    o['prog'] = dict(o['prog'], tag=t + 1)
+                if o['op'] == 'update_params':
+                    o['ptag'] = t + 1
+                ops.append(o)
+            out.append({'kind': 'hist', 'stream': 'exhaustive-small', 'awgs': [[1, 0], [1, 0]], 'ndacs': 1,
+                        'masks': [[0, 0], [0, 1]], 'ops': ops})
+    return out
+
+
 def gen_cases(rng, tier, ctx):
     cases = targeted(rng)
     n = {'quick': 1, 'thorough': 12}[tier]
@@ -772,8 +988,9 @@ def gen_cases(rng, tier, ctx):
     for _ in range(60 * n):
         cases.append(rnd_history(rng, rng.randint(5, 12), clean=False, malformed_rate=0.45))
     if tier == 'quick':
-        ex = exhaustive(2)
+        ex = exhaustive(2) + exhaustive_small(2) + [c for c in exhaustive_small(3, 3) if rng.random() < 0.2]
     else:
+        cases.extend(exhaustive_small(4))          # complete: 11 110 histories
         ex = exhaustive(3)
         ex += [c for c in exhaustive(4)[len(ex):] if rng.random() < 0.25]      # length-4 histories, sampled 1:4
         for _ in range(600):
@@ -790,7 +1007,7 @@ def nontrivial(case, obs):
         return False
     seen_reg = False
     for op, st in zip(case['ops'], obs['steps']):
-        if seen_reg and op['op'] in ('register', 'remove', 'clear', 'arm', 'run', 'set_channel', 'rm_channel'):
+        if seen_reg and op['op'] in ('register', 'remove', 'clear', 'arm', 'run', 'set_channel', 'rm_channel', 'update_params'):
             return True
         if op['op'] == 'register' and st['err'] is None:
             seen_reg = True
@@ -808,6 +1025,14 @@ def histogram_keys(case, obs):
         keys.append('op:%s:%s' % (k, st['err'] or 'ok'))
     verdict = S.evaluate(case, obs)
     keys.append('spec:' + ('ok' if verdict is None else verdict['clause']))
+    if case.get('ids'):
+        keys.append('ids:int' if all(isinstance(x, int) for x in case['ids']) else 'ids:mixed')
+    stt = S.statuses(case, obs)
+    for side in ('awg', 'dac'):
+        if stt.lost[side]:
+            keys.append('status:%s-lost' % side)
+        if stt.cov[side] - stt.lost[side]:
+            keys.append('status:%s-covered-at-end' % side)
     return keys
 
 
@@ -856,7 +1081,7 @@ def search_failing(ctx, broken):
     rng = random.Random(12345)
     known, _ = vlib.load_known_findings()
     known = known.get(PID, {})
-    pool = targeted(rng) + exhaustive(2) + [scenario_history(rng) for _ in range(300)] + \
+    pool = targeted(rng) + exhaustive(2) + exhaustive_small(3) + [scenario_history(rng) for _ in range(300)] + \
         [rnd_history(rng, rng.randint(6, 15), clean=True) for _ in range(400)] + \
         [rnd_history(rng, rng.randint(6, 15), clean=False) for _ in range(200)]
     for c in pool:
